@@ -255,6 +255,38 @@ func c5BulkCount(c *Ctx, rule string, fi *FuncInfo, ps []*Path, elemOp string, t
 		}
 		return
 	}
+	// adding a set to itself adds nothing: a path on which the argument is known to be the receiver may answer 0 at
+	// once. What remains may be spelled as several paths that do the same thing (they differ in tests only).
+	{
+		var rest []*Path
+		seen := map[string]bool{}
+		for _, p := range ps {
+			if strings.HasSuffix(elemOp, ".Add") && c5SelfOperand(p, target) && p.End == EndReturn && len(p.Rets) == 1 && p.Rets[0].IsConst("0") {
+				quiet := true
+				for i := range p.Events {
+					if e := &p.Events[i]; !(e.Kind == "store" && e.Addr.Op == "alloc") {
+						quiet = false
+					}
+				}
+				if quiet {
+					continue
+				}
+			}
+			var sb strings.Builder
+			for i := range p.Events {
+				sb.WriteString(p.Events[i].String() + "\n")
+			}
+			sb.WriteString(fmt.Sprint(p.End))
+			for _, r := range p.Rets {
+				sb.WriteString("|" + r.Key())
+			}
+			if !seen[sb.String()] {
+				seen[sb.String()] = true
+				rest = append(rest, p)
+			}
+		}
+		ps = rest
+	}
 	ok, why := len(ps) == 1, "the method branches"
 	if ok {
 		p := ps[0]
@@ -383,4 +415,27 @@ func c5BulkCount(c *Ctx, rule string, fi *FuncInfo, ps []*Path, elemOp string, t
 	if !ok {
 		o.Breaks = "the returned count no longer equals the number of members gained/lost (under contention or always)"
 	}
+}
+
+// c5SelfOperand: the path has established that the set argument (parameter 1, after a type assertion) is the receiver.
+func c5SelfOperand(p *Path, recv *Term) bool {
+	for _, cd := range p.Conds {
+		r := cd.Rel()
+		if r.Op != "==" {
+			continue
+		}
+		for _, pr := range [][2]*Term{{r.A, r.B}, {r.B, r.A}} {
+			a, b := pr[0], pr[1]
+			if a == nil || b == nil || b.Key() != recv.Key() {
+				continue
+			}
+			if a.Op == "extract" && a.N == 0 {
+				a = a.Args[0]
+			}
+			if a.Op == "tassert" && len(a.Args) > 0 && isParam(stripIface(a.Args[0]), 1) {
+				return true
+			}
+		}
+	}
+	return false
 }
